@@ -28,6 +28,7 @@ func init() {
 
 func runC10(c *report.Ctx) {
 	p := c.P
+	rulePendingInputsAppend(c) // a replaced pending deposit is evicted (and its history entry removed) only if it is still listed as a spender
 	ruleSequenceSiblings(c)
 
 	// ---- (2) history flips -----------------------------------------------------------------------------
